@@ -26,7 +26,7 @@ Clause(e) ==
           ELSE IF e.w.k = "raised" THEN "RoundTrip.marshal.raised"
           ELSE IF e.r.k = "raised" THEN "RoundTrip.unmarshal.raised"
           ELSE IF e.w2.k = "raised" THEN "RoundTrip.remarshal.raised"
-          ELSE IF e.w2.r # e.w.r THEN "RoundTrip.weakfixpoint"
+          ELSE IF ~WEq(e.T, e.w.r, e.w2.r, Defs) THEN "RoundTrip.weakfixpoint"
           ELSE IF ~e.amb /\ e.r.r # e.v THEN "RoundTrip.strict" ELSE "")
     [] e.ev = "marshal" ->
          (IF e.w.k = "raised" THEN "Marshal.raised"
